@@ -128,6 +128,7 @@ pub fn run_history(ctx: &Ctx, steps: &[Step], tr_policy: u64, sorenson: bool, rn
     cfg.stuffing_pct = 0;
     cfg.pei = 0;
     let mut dec = Dec::new(sorenson, false);
+    dec.chunk = *rng.pick(&[usize::MAX, usize::MAX, usize::MAX, 1, 4, 100]);
     let mut stored: Vec<Stored> = vec![];
     let (mut last, mut reference): (Option<usize>, Option<usize>) = (None, None);
     let mut tr = rng.byte();
